@@ -89,7 +89,7 @@ def seam_audit(repo=REPO):
 def evaluate(job, res):
     """Parse + oracles for one finished run; returns a compact record."""
     rec = {"job": job, "status": res["status"], "wall": res["wall"], "violations": [], "why": res.get("why")}
-    if res["status"] in ("ub", "deadlock"):
+    if res["status"] in ("ub", "deadlock", "hang"):
         rec["violations"] = [{"class": res["status"], "detail": res["why"], "key": res["status"], "threads": [], "n": None, "typ": None}]
         rec["stderr"] = res["stderr"]
         return rec
@@ -286,7 +286,7 @@ def write_replay(job, v, run, steps, tries, original_job, repo):
     trace, total = trace_of(run, v) if run else ([], 0)
     doc = {"property": PROP, "class": v["class"], "key": v["key"], "detail": v["detail"],
            "miri_seed": job["miri_seed"], "miriflags": runner.miriflags(job["miri_seed"], job["preempt"], job.get("extra_flags", ())),
-           "argv": runner.argv_of(job), "job": {k: job[k] for k in job if k not in ("id",)},
+           "argv": runner.argv_of(job), "job": dict({k: job[k] for k in job if k not in ("id",)}, hang=runner.hang_limit(job)),
            "found_by": {k: original_job[k] for k in original_job if k not in ("id",)},
            "minimisation": {"accepted_steps": steps, "candidate_runs": tries},
            "repo_src_digest": runner.repo_digest(repo),
